@@ -26,6 +26,9 @@ class Inconclusive(BaseException):
     """Solver said unknown / budget exhausted: the obligation cannot be decided."""
 
 
+OPTIONS = {"def_relations": False}   # see Ctx.polyvar (opt-in per harness)
+
+
 class Ctx:
     cur = None
 
@@ -40,6 +43,7 @@ class Ctx:
         self.tsolve = 0.0
         self.polyvars = {}              # poly symbol id -> z3 Real
         self.violations = []            # (label, model dict)
+        self.memo = {}                  # (kind, id, id) -> decision already taken on this path
         self.notes = []
         self.nforks = 0
 
@@ -151,6 +155,13 @@ class Ctx:
             pr = P.TAB.powrule.get(sid)
             if pr is not None and pr[0] == 2:
                 self.add(v * v == pr[1])
+            if kind == "def" and OPTIONS["def_relations"]:
+                # opt-in: a defined symbol (1/p, sqrt(p)) that reaches a branch carries its
+                # defining relation into the path condition (otherwise it is unconstrained there)
+                nm = P.TAB.names[sid]
+                for lab, h in list(P.HYP):
+                    if lab in ("def-inverse:" + nm, "def-sqrt:" + nm):
+                        self.add(self.poly_to_z3(h) == 0)
         return v
 
     def poly_to_z3(self, p):
@@ -855,6 +866,84 @@ class SymBV(Sym):
         return c.concretize(self.e)
 
     __int__ = __index__
+
+
+# ------------------------------------------------------------------------------ labels
+
+def _memo_cmp(op, a, b):
+    """label comparison with a per-path memo (a decision taken once on a path is implied by the
+    path condition afterwards: no need to ask the solver again)"""
+    c = Ctx.cur
+    ia, ib = a.get_id(), b.get_id()
+    if ia == ib:
+        return op == "=="
+    if op == "==" and ia > ib:
+        ia, ib, a, b = ib, ia, b, a
+    k = (op, ia, ib)
+    r = c.memo.get(k)
+    if r is None:
+        r = bool(SymBool(a == b if op == "==" else a < b))
+        c.memo[k] = r
+        if op == "<":
+            if r:
+                c.memo[("<", ib, ia)] = False
+                c.memo[("==", min(ia, ib), max(ia, ib))] = False
+        elif r is False:
+            pass
+    return r
+
+
+class SymLabel(str):
+    """A string label of symbolic identity.  Constant hash => every hashed container compares
+    keys with ==, which forks on `self.e == other.e`.  Never equal to a plain str."""
+
+    def __new__(cls, name, e):
+        o = str.__new__(cls, name)
+        o.e = e
+        return o
+
+    def __hash__(self):
+        return 0x51A8E1
+
+    def __eq__(self, o):
+        if o is self:
+            return True
+        if isinstance(o, SymLabel):
+            return _memo_cmp("==", self.e, o.e)
+        return False
+
+    def __ne__(self, o):
+        return not self.__eq__(o)
+
+    def __lt__(self, o):
+        if isinstance(o, SymLabel):
+            return _memo_cmp("<", self.e, o.e)
+        return str.__lt__(self, o)
+
+    def __le__(self, o):
+        if isinstance(o, SymLabel):
+            return bool(SymBool(self.e <= o.e))
+        return str.__le__(self, o)
+
+    def __gt__(self, o):
+        if isinstance(o, SymLabel):
+            return bool(SymBool(self.e > o.e))
+        return str.__gt__(self, o)
+
+    def __ge__(self, o):
+        if isinstance(o, SymLabel):
+            return bool(SymBool(self.e >= o.e))
+        return str.__ge__(self, o)
+
+    def __reduce__(self):
+        return (_unpickle_label, (str.__str__(self), str(self.e)))
+
+    def __repr__(self):
+        return "<" + str.__str__(self) + ">"
+
+
+def _unpickle_label(name, var):
+    return SymLabel(name, z3.Int(var))
 
 
 # ------------------------------------------------------------------------------ exploration
